@@ -142,9 +142,9 @@ def gen_body(rng, kind='body'):
             # the Request object used directly: with DefaultConfig (errors_map present) or a plain dict (absent)
             c['inner'] = {'gbs': 'gbs', 'forms': 'forms'}.get(via)
             c['via'] = 'request'
-            c['rconf'] = rng.choice(['default_config', 'raw_dict'])
+            c['rconf'] = rng.choice(['default_config', 'raw_dict', 'default_config_kw'])
         else:
-            c['conf'] = rng.choice(['ctor', 'ctor', 'setup', 'setup', 'setup_over'])
+            c['conf'] = rng.choice(['ctor', 'ctor', 'setup', 'setup', 'setup_over', 'kw', 'kw_split', 'kw_setup', 'kw_only'])
         if rng.random() < 0.3:
             c['pre'] = [rng.choice(['body_first', 'copy_after', 'second']) for _ in range(rng.randrange(1, 3))]
         if kind == 'text' and ctype == 'json' and via == 'forms' and rng.random() < 0.5:
@@ -186,7 +186,7 @@ def gen_budget(rng):
                           pad=rng.choice([0, 0, 0, 3, 30])))
     c = dict(kind='budget', parts=parts, buf=buf, via=rng.choice(['iter_items', 'iter_items', 'wsgi']))
     if c['via'] == 'wsgi':
-        c['conf'] = rng.choice(['ctor', 'setup', 'setup_over'])
+        c['conf'] = rng.choice(['ctor', 'setup', 'setup_over', 'kw', 'kw_split', 'kw_setup'])
         c['sched'] = rng.choice([[], [0, 3, 1] * 40, [6] * 200])      # the multipart body itself arrives fragmented
     # steer half of the cases to the edge: threshold = exact need + {-1, 0, +1}
     if rng.random() < 0.5:
@@ -227,8 +227,8 @@ def gen_epilogue(rng):
 def gen_seq(rng):
     """3..7 requests (raw bodies, form texts, multipart forms) served by two shared application objects with
     different limits, interleaved: 413 / 200 / 400 in any order"""
-    apps = [[rng.choice(['ctor', 'setup', 'setup_over']), rng.choice([4, 8, 12]), rng.choice([None, 5, 20])],
-            [rng.choice(['ctor', 'setup']), rng.choice([5, 9, 60]), rng.choice([None, 0, 7, 30])]]
+    apps = [[rng.choice(['ctor', 'setup', 'setup_over', 'kw', 'kw_setup']), rng.choice([4, 8, 12]), rng.choice([None, 5, 20])],
+            [rng.choice(['ctor', 'setup', 'kw_split', 'kw_only']), rng.choice([5, 9, 60]), rng.choice([None, 0, 7, 30])]]
     items = []
     for _ in range(rng.randrange(3, 8)):
         k = rng.randrange(2)
@@ -318,6 +318,14 @@ def corpus():
     for via in ('iter_items', 'wsgi'):
         out.append(dict(kind='budget', parts=big_file, buf=200, via=via))
         out.append(dict(kind='budget', parts=big_file, buf=150, via=via))
+    # round 7: a configuration built from a source mapping plus keyword fall-backs (DefaultConfig(src, **kw))
+    for conf in ('kw', 'kw_split', 'kw_setup', 'kw_only'):
+        out.append(dict(_body(d[:10], 10, 4, 5, via='wsgi'), conf=conf))
+        out.append(dict(_body(d[:5], 5, 4, 5, via='wsgi'), conf=conf))
+        out.append(dict(_body(d[:9], 9, 8, None, via='wsgi'), conf=conf))
+        out.append(dict(_body((b'k=' + b'v' * 9)[:9], 9, 8, None, via='gbs', kind='text', ctype='urlencoded'), conf=conf))
+        out.append(dict(kind='budget', parts=one, buf=44, via='wsgi', conf=conf))
+    out.append(dict(_body(d[:10], 10, 4, 5, via='request'), rconf='default_config_kw'))
     # round 6: the Transfer-Encoding spellings (list values with blanks, other codings first, case): a chunked body
     # above the limit is still 413 and a small one is still decoded (not taken for an empty body)
     for te in sorted(set(TE_CHUNKED)):
@@ -430,16 +438,9 @@ DEFAULT_MEMFILE = 100 * 1024
 def make_app(conf, buf, maxb):
     from ombott import Ombott
     cfg = dict(max_memfile_size=buf, max_body_size=maxb)
-    if conf == 'ctor':
-        return Ombott(cfg)
-    if conf == 'setup':                         # the documented way to (re)configure an existing application
-        app = Ombott()
-        app.setup(cfg)
-        return app
-    if conf == 'setup_over':                    # setup() overriding what the constructor was given
-        app = Ombott(dict(max_memfile_size=buf + 3, max_body_size=1))
-        app.setup(cfg)
-        return app
+    if conf != 'default':
+        from props.bodyA_shared import build_app
+        return build_app(conf, cfg)
     assert conf == 'default' and buf == DEFAULT_MEMFILE and maxb is None
     return Ombott()                             # no configuration at all: 100 KiB threshold, no limit
 
@@ -571,7 +572,9 @@ def call_request(case, st, ctype=None):
     from ombott import Request, DefaultConfig, HTTPError
     from ombott.request_pkg.errors import RequestError
     cfg = dict(max_memfile_size=case['buf'], max_body_size=case.get('maxb'))
-    rq = Request(make_environ(case, st, ctype), config=DefaultConfig(cfg) if case['rconf'] == 'default_config' else cfg)
+    conf_obj = {'default_config': lambda: DefaultConfig(cfg), 'raw_dict': lambda: cfg,
+                'default_config_kw': lambda: DefaultConfig({'debug': False}, **cfg)}[case['rconf']]()
+    rq = Request(make_environ(case, st, ctype), config=conf_obj)
     seen = {}
     try:
         content = access(rq, case, seen)
@@ -930,6 +933,8 @@ API_SURFACE = [
     ('BaseRequest._raise, errors_map present / absent', 'covered by conf ctor/setup/setup_over/default and via=request with '
                                                         'DefaultConfig vs plain dict (C13_unmapped_errors_escape)'),
     ('Ombott.__init__ / setup', 'covered by conf'),
+    ('DefaultConfig(src, **kw) / SimpleConfig.get_from: source mapping + keyword fall-backs', 'covered by conf kw / kw_split / '
+                                                                                               'kw_setup / kw_only and rconf default_config_kw'),
     ('config max_body_size None / 0 / n, max_memfile_size', 'covered (sizes at limit-1, limit, limit+1, limit+buf, 10x)'),
     ('config errors_map overridden by the user', 'excluded: the status is then the user\'s choice'),
     ('application and Request objects reused, shared HTTPError instances, two applications', 'covered by kind=seq '
